@@ -15,4 +15,45 @@ def Rel.Settled (s : ProcState) : Rel → Prop
        | _ => True)
   | r => (s.payloadOf r).isSome = true
 
+/-- A tree inside ONE iteration engine with materializations but no transfers and no Select markers, whose
+materializations are not statically trivial and whose chains have no statically empty operand (the cases where
+the Processor substitutes a trivial payload or prunes a branch). -/
+def Rel.PlainIter (e : Engine) : Rel → Prop
+  | .leaf _ e' _ _ _ _ _ _ => e' = e
+  | .unary _ t _ => Rel.PlainIter e t
+  | .binary op l r _ => Rel.PlainIter e l ∧ Rel.PlainIter e r ∧
+      (match op with
+       | .chain => l.maxRows ≠ some 0 ∧ r.maxRows ≠ some 0
+       | _ => True)
+  | .mat oid n t => Rel.PlainIter e t ∧ (Rel.mat oid n t).isJoinIdentity = false ∧ (Rel.mat oid n t).maxRows ≠ some 0
+  | .transfer .. => False
+  | .select .. => False
+
+/-- The `was_materialized` flag `_process_recursive` reports for a tree it leaves unchanged. -/
+def Rel.procFlag : Rel → Bool
+  | .unary .. => false
+  | .binary .. => false
+  | _ => true
+
+/-- A tree over SEVERAL iteration engines: leaves, unary operations, chains, transfers between iteration engines
+(not statically trivial) and materializations of single-engine subtrees. -/
+def Rel.MultiIter : Rel → Prop
+  | .leaf _ e _ _ _ _ _ _ => e.kind = .iter
+  | .unary _ t _ => Rel.MultiIter t
+  | .binary _ l r _ => Rel.MultiIter l ∧ Rel.MultiIter r
+  | .mat oid n t => t.engine.kind = .iter ∧ Rel.PlainIter t.engine t ∧
+      (Rel.mat oid n t).isJoinIdentity = false ∧ (Rel.mat oid n t).maxRows ≠ some 0
+  | .transfer oid d t => Rel.MultiIter t ∧ d.kind = .iter ∧
+      (Rel.transfer oid d t).isJoinIdentity = false ∧ (Rel.transfer oid d t).maxRows ≠ some 0
+  | .select .. => False
+
+/-- Every marker of the tree has an allocation id below `n` (ids the Processor hands out later are fresh). -/
+def Rel.markersBelow (n : Nat) : Rel → Prop
+  | .leaf .. => True
+  | .unary _ t _ => Rel.markersBelow n t
+  | .binary _ l r _ => Rel.markersBelow n l ∧ Rel.markersBelow n r
+  | .mat oid _ t => oid < n ∧ Rel.markersBelow n t
+  | .transfer oid _ t => oid < n ∧ Rel.markersBelow n t
+  | .select oid _ _ _ _ _ _ _ t => oid < n ∧ Rel.markersBelow n t
+
 end DafRel
